@@ -636,6 +636,10 @@ var shapes = []shape{
 	{check: "S1028", name: "errors-new-sprintf", aliasing: true, build: func(g *gen) (string, string) {
 		f := g.q("fmt")
 		args := g.pick(`"%d", `+g.intE(2), `"%s-%d", `+g.strE(1)+", "+g.intE(1), `"%v|%v", `+g.intE(1)+", "+g.boolE(1), `"plain"`)
+		if g.n(4) == 0 {
+			// the last argument is spread
+			return "error", "\tvs := []any{" + g.intE(1) + ", " + g.strE(1) + "}\n\treturn " + g.q("errors") + ".New(" + f + ".Sprintf(\"%v/%v\", vs...))\n"
+		}
 		return "error", "\treturn " + g.q("errors") + ".New(" + f + ".Sprintf(" + args + "))\n"
 	}},
 	{check: "S1030", weight: 2, name: "buffer-bytes", build: func(g *gen) (string, string) {
@@ -679,6 +683,10 @@ var shapes = []shape{
 			return "int", "\tswitch v.(type) {\n\tcase int:\n\t\tn := v.(int)\n\t\tv = \"s\"\n\t\treturn n + len(v.(string))\n\t}\n\treturn -1\n"
 		} else if !include("s1034-assignment-to-switched-variable") {
 			excluded("s1034_switched_variable_assigned")
+		}
+		if g.n(4) == 0 {
+			// comma-ok form of the assertion inside a clause
+			return "int", "\tswitch v.(type) {\n\tcase int:\n\t\tn, ok := v.(int)\n\t\tif ok {\n\t\t\treturn n + " + g.intE(1) + "\n\t\t}\n\tcase string:\n\t\tvar s2, ok2 = v.(string)\n\t\tif ok2 {\n\t\t\treturn len(s2)\n\t\t}\n\t}\n\treturn -1\n"
 		}
 		return "int", "\tswitch v.(type) {\n\tcase int:\n\t\treturn v.(int) + " + g.intE(1) + "\n\tcase string:\n\t\treturn len(v.(string))\n\tcase nil:\n\t\treturn -2\n\t}\n\treturn -1\n"
 	}},
@@ -820,15 +828,24 @@ var shapes = []shape{
 	}},
 	{check: "QF1006", name: "for-if-break", build: func(g *gen) (string, string) {
 		cond := "i > 3 || " + g.boolE(2)
-		if g.n(3) == 0 {
+		switch g.n(6) {
+		case 0, 1:
 			cond = "i >= (" + g.intE(1) + ")&3"
+		case 2:
+			// floating point comparison; nan is NaN for some inputs
+			cond = "i > 3 || nan < 3.0"
+		case 3:
+			cond = "i > 3 || !(nan >= fl)"
+		case 4:
+			// composite literal in the condition
+			cond = "(T1{A: i} == T1{A: 2 + (a & 1)})"
 		}
 		label, cont := "", ""
 		if g.n(3) == 0 {
 			label = "L:\n\t"
 			cont = "\t\tif i == 1 {\n\t\t\ti += 2\n\t\t\tcontinue L\n\t\t}\n"
 		}
-		return "int", "\ti, r := 0, 0\n\t" + label + "for {\n\t\tif " + cond + " {\n\t\t\tbreak\n\t\t}\n" + cont + "\t\ti++\n\t\tr += i\n\t}\n\treturn r\n"
+		return "int", "\tnan := " + g.q("math") + ".Log(-1 + fl*float64(a&1))\n\t_ = nan\n\ti, r := 0, 0\n\t" + label + "for {\n\t\tif " + cond + " {\n\t\t\tbreak\n\t\t}\n" + cont + "\t\ti++\n\t\tr += i\n\t}\n\treturn r\n"
 	}},
 	{check: "QF1007", weight: 2, name: "cond-assign", build: func(g *gen) (string, string) {
 		c := g.boolE(2)
@@ -872,6 +889,12 @@ var shapes = []shape{
 			fn, args = "Sprintln", "("+g.strE(1)+")"
 		}
 		call := f + "." + fn + args
+		spread := ""
+		if g.n(4) == 0 {
+			// the last argument is spread
+			spread = "\tvs := []any{" + g.intE(1) + ", " + g.strE(1) + "}\n"
+			call = f + "." + g.pick("Sprintf(\"%v/%v\", vs...)", "Sprint(vs...)", "Sprintln(vs...)")
+		}
 		sb := ""
 		form := g.n(5)
 		if form == 4 && !include("qf1012-address-of-unaddressable-receiver") {
@@ -884,15 +907,15 @@ var shapes = []shape{
 		}
 		switch form {
 		case 0:
-			return "string", "\tvar sb " + sb + ".Builder\n\tsb.WriteString(" + call + ")\n\treturn sb.String()\n"
+			return "string", spread + "\tvar sb " + sb + ".Builder\n\tsb.WriteString(" + call + ")\n\treturn sb.String()\n"
 		case 1:
-			return "(string, int, error)", "\tsb := &" + sb + ".Builder{}\n\tn, err := sb.WriteString(" + call + ")\n\treturn sb.String(), n, err\n"
+			return "(string, int, error)", spread + "\tsb := &" + sb + ".Builder{}\n\tn, err := sb.WriteString(" + call + ")\n\treturn sb.String(), n, err\n"
 		case 2:
-			return "string", "\tvar buf " + g.q("bytes") + ".Buffer\n\tbuf.Write([]byte(" + call + "))\n\treturn buf.String()\n"
+			return "string", spread + "\tvar buf " + g.q("bytes") + ".Buffer\n\tbuf.Write([]byte(" + call + "))\n\treturn buf.String()\n"
 		case 3:
-			return "string", "\tw := W{&" + sb + ".Builder{}}\n\tw.WriteString(" + call + ")\n\treturn w.sb.String()\n"
+			return "string", spread + "\tw := W{&" + sb + ".Builder{}}\n\tw.WriteString(" + call + ")\n\treturn w.sb.String()\n"
 		default:
-			return "int", "\tn, _ := mkW(1).Write([]byte(" + call + "))\n\treturn n\n"
+			return "int", spread + "\tn, _ := mkW(1).Write([]byte(" + call + "))\n\treturn n\n"
 		}
 	}},
 }
